@@ -1,23 +1,36 @@
 pub(crate) fn normalize_git_remote_for_policy(url: &str) -> String {
     let mut u = url.trim().trim_end_matches(".git").to_string();
     if let Some(rest) = u.strip_prefix("git@") {
-        u = rest.replace(':', "/");
+        // scp-like `git@host:path`: only the first ':' separates host and path.
+        u = match rest.split_once(':') {
+            Some((host, path)) if !host.contains('/') => format!("{host}/{path}"),
+            _ => rest.to_string(),
+        };
     } else if let Some(rest) = u.strip_prefix("https://") {
         u = rest.to_string();
     } else if let Some(rest) = u.strip_prefix("http://") {
         u = rest.to_string();
     } else if let Some(rest) = u.strip_prefix("ssh://") {
-        u = rest.to_string();
-        if let Some((_, rest)) = u.split_once('@') {
-            u = rest.to_string();
-        }
-        u = u.replace(':', "/");
+        // User-info belongs to the authority (the text before the first '/'); an '@' or ':'
+        // further right is part of the path.
+        let (authority, path) = rest.split_at(rest.find('/').unwrap_or(rest.len()));
+        let host = authority
+            .rsplit_once('@')
+            .map_or(authority, |(_, host)| host);
+        u = format!("{host}{path}");
     }
     u.trim_start_matches('/').to_lowercase()
 }
 
 pub(crate) fn remote_matches_allowlist(normalized_remote: &str, normalized_allow: &str) -> bool {
     if normalized_allow.is_empty() {
+        return false;
+    }
+    // `host/org/../other/repo` is not under `host/org`: never allow-list a dot segment.
+    if normalized_remote
+        .split(|c| matches!(c, '/' | '?' | '#'))
+        .any(is_dot_segment)
+    {
         return false;
     }
     if normalized_remote == normalized_allow {
@@ -34,4 +47,9 @@ pub(crate) fn remote_matches_allowlist(normalized_remote: &str, normalized_allow
         .get(normalized_allow.len())
         .copied()
         == Some(b'/')
+}
+
+/// `.` or `..`, literal or percent-encoded (the remote is already lower-cased).
+fn is_dot_segment(segment: &str) -> bool {
+    matches!(segment, "." | ".." | "%2e" | ".%2e" | "%2e." | "%2e%2e")
 }
